@@ -6,25 +6,19 @@
 package c01
 
 import (
-	"fmt"
 	"testing"
-	"time"
 
-	"verif/harness/internal/evt"
 	"verif/harness/internal/prog"
 	"verif/harness/internal/vk"
-	"verif/harness/internal/watchdog"
 )
 
 func TestC01(t *testing.T) {
 	run := vk.New("C01", "lockstep")
 	defer run.Finish()
-	if err := evt.SelfTest(); err != nil {
-		t.Fatalf("self-test: %v", err)
-	}
-	drivers := evt.Drivers()
+	h := prog.NewHarness(run, "registry")
+	defer h.Dog.Stop()
 	shards := map[int]int{}
-	for _, d := range drivers {
+	for _, d := range h.Drivers {
 		shards[d.Shard()]++
 	}
 	coll := 0
@@ -33,21 +27,21 @@ func TestC01(t *testing.T) {
 			coll += n
 		}
 	}
-	run.Count("event_types", int64(len(drivers)))
+	run.Count("event_types", int64(len(h.Drivers)))
 	run.Count("types_in_shared_shards", int64(coll))
 
-	var cur *prog.Program
-	dog := watchdog.Start(20*time.Second, func(v watchdog.Verdict) {
-		if v.Deadlock {
-			run.Violation("registry:deadlock", "program hung with goroutines parked below ebu frames", map[string]any{"program": cur, "dump": v.Dump})
-		} else {
-			run.Inconclusive("watchdog fired without a confirmed deadlock")
+	after := func(eng *prog.Engine) {
+		nontrivial := eng.Stats.ReentrantMut > 0 && eng.ShardShare()
+		run.Case(eng.Signature(), nontrivial)
+		h.CountStats(eng)
+		if eng.ShardShare() {
+			run.Count("programs_with_shard_sharing", 1)
 		}
-		run.Finish()
-		watchdog.Exit()
-	})
-	defer dog.Stop()
-
+	}
+	if p := prog.ReplayProgram(); p != nil {
+		h.Exec(0, p, nil, after)
+		return
+	}
 	n := run.Scale(3000, 40000)
 	profiles := []prog.Profile{
 		{MinTypes: 2, MaxTypes: 4, MinOps: 15, MaxOps: 50, Async: true, Scripts: true, FewClasses: true},
@@ -56,39 +50,8 @@ func TestC01(t *testing.T) {
 		{MinTypes: 2, MaxTypes: 5, MinOps: 20, MaxOps: 60, Async: true, Scripts: true, Cancels: true},
 	}
 	for i := 0; i < n; i++ {
-		rng := run.Rand(uint64(i))
-		p := prog.Gen(rng, drivers, profiles[i%len(profiles)])
-		cur = p
-		var eng *prog.Engine
-		viol := func(sig, desc string) {
-			run.Violation(sig, desc, map[string]any{"case": i, "program": p})
-		}
-		func() {
-			defer func() {
-				if r := recover(); r != nil {
-					run.Violation("registry:panic-escaped", fmt.Sprintf("panic escaped from the bus: %v", r), map[string]any{"case": i, "program": p})
-				}
-			}()
-			eng = prog.New(drivers, p, viol)
-			eng.Run()
-		}()
-		dog.Tick()
-		st := eng.Stats
-		nontrivial := st.ReentrantMut > 0 && eng.ShardShare()
-		run.Case(eng.Signature(), nontrivial)
-		run.Count("sync_invocations", int64(st.SyncInv))
-		run.Count("async_invocations", int64(st.AsyncInv))
-		run.Count("reentrant_ops", int64(st.Reentrant))
-		run.Count("reentrant_registry_mutations", int64(st.ReentrantMut))
-		run.Count("publishes", int64(st.Pubs))
-		run.Count("nested_publishes", int64(st.NestedPubs))
-		run.Count("queries_compared", int64(st.Queries))
-		run.Count("once_fired", int64(st.Zombies))
-		run.Count("unsubscribe_skipped_zombie", int64(st.SkippedUnsub))
-		run.Max("max_reentrancy_depth", int64(st.MaxDepth))
-		if eng.ShardShare() {
-			run.Count("programs_with_shard_sharing", 1)
-		}
+		p := prog.Gen(run.Rand(uint64(i)), h.Drivers, profiles[i%len(profiles)])
+		eng := h.Exec(i, p, nil, after)
 		if i < 2 && run.Shard == 0 {
 			run.Sample(map[string]any{"program": p, "trace_events": len(eng.Trace)})
 		}
